@@ -256,6 +256,53 @@ pub fn at_ladder() -> Vec<(Program, Vec<V>)> {
     out
 }
 
+/// DepthLadder: expressions nested deeper and deeper (5 .. 260 additions, and recursion of growing depth), bound by
+/// let / let* / assign or written directly, reaching a function as an argument.  The partial evaluator gives up at a depth
+/// limit; wherever it answers instead, the answer has to be the compiled program's.
+pub fn depth_ladder(full: bool) -> Vec<(Program, Vec<V>)> {
+    use crate::ast::{Expr, Helper, Pat};
+    let v = |n: &str| Expr::Var(n.to_string());
+    let pv = |n: &str| Pat::Var(n.to_string());
+    let lit = |n: i64| Expr::Lit(V::int(n));
+    let deep = |n: usize, leaf: Expr| {
+        let mut e = leaf;
+        for _ in 0..n {
+            e = Expr::Prim(16, vec![lit(1), e]);
+        }
+        e
+    };
+    let depths: Vec<usize> = if full { vec![5, 30, 60, 90, 95, 100, 110, 130, 170, 200, 260] } else { vec![5, 60, 95, 130, 260] };
+    let mut out = vec![];
+    for n in depths {
+        for shape in 0..8usize {
+            let g = Helper::Defun { name: "gsum".into(), pat: Pat::list(vec![pv("X"), pv("Y")], Pat::Nil), body: Expr::Prim(16, vec![v("X"), v("Y")]), inline: shape == 2 };
+            let call = |a: Expr, b: Expr| Expr::Call("gsum".into(), vec![a, b], None);
+            let use_x = call(lit(1000), Expr::Prim(16, vec![v("DX"), lit(1)]));
+            let mut helpers = vec![g];
+            let mut arg = lit(5);
+            let fbody = match shape {
+                0 | 2 | 6 => Expr::Let(false, vec![("DX".into(), deep(n, v("A")))], Box::new(use_x)),
+                1 => Expr::Assign(vec![(pv("DX"), deep(n, v("A")))], Box::new(use_x)),
+                3 => call(lit(1000), deep(n, v("A"))),
+                4 => Expr::If(Box::new(v("A")), Box::new(call(lit(1), deep(n, v("A")))), Box::new(lit(0))),
+                5 => Expr::Let(true, vec![("DX".into(), deep(n, v("A"))), ("DY".into(), Expr::Prim(16, vec![v("DX"), lit(1)]))], Box::new(call(v("DY"), v("DY")))),
+                _ => {
+                    // depth through recursion: (count n) = n
+                    helpers.push(Helper::Defun { name: "count".into(), pat: Pat::list(vec![pv("N")], Pat::Nil),
+                        body: Expr::If(Box::new(v("N")), Box::new(Expr::Prim(16, vec![lit(1), Expr::Call("count".into(), vec![Expr::Prim(17, vec![v("N"), lit(1)])], None)])), Box::new(lit(0))), inline: false });
+                    arg = lit(n as i64);
+                    Expr::Let(false, vec![("DX".into(), Expr::Call("count".into(), vec![v("A")], None))], Box::new(use_x))
+                }
+            };
+            helpers.push(Helper::Defun { name: "deepf".into(), pat: Pat::list(vec![pv("A")], Pat::Nil), body: fbody, inline: shape == 6 });
+            let p = Program { args: Pat::list(vec![pv("P1")], Pat::Nil), helpers, body: Expr::Call("deepf".into(), vec![v("P1")], None) };
+            let first = match &arg { Expr::Lit(x) => x.clone(), _ => V::int(5) };
+            out.push((p, vec![V::list(&[first]), V::list(&[V::int(2)])]));
+        }
+    }
+    out
+}
+
 pub fn gen_opts(profile: &str) -> GenOpts {
     match profile {
         "core" => GenOpts::core(),
@@ -401,6 +448,8 @@ pub fn drive(args: &HashMap<String, String>) {
         progs.extend(use_ladder(false));
         progs.extend(rest_and_assign_ladders());
         progs.extend(at_ladder());
+        // (TLC's JSON reader stops at 255 levels of nesting: two per addition)
+        progs.extend(depth_ladder(n >= 100).into_iter().filter(|(p, _)| crate::util::json_depth(&p.to_json()) < 240));
     }
     for i in 0..(if profile == "ladder" { 0 } else { n }) {
         // alternate small / full programs
